@@ -82,6 +82,25 @@ def all_atomic_sites(ctx, field):
 WAITERS = ('wait', 'wait_timeout', 'async_blocking_wait', 'poll')
 
 
+def rearm_write(ctx, key, m, op):
+    """is this write to Signal.state a store of the constant LOCKED (and nothing else)?"""
+    if m == 'store':
+        a = op['args'] if op else None
+        return bool(a) and is_const(a[0], LOCKED)
+    b = ctx.body(key)
+    ps = ctx.paths(b) if b is not None else None
+    if not ps:
+        return False
+    n = 0
+    for p in ps:
+        for e in p.events:
+            if e.kind == 'wr' and isinstance(e.place, tuple) and e.place[0] == 'deref' and e.place[1][0] == 'call' and e.place[1][2].endswith('::get_mut'):
+                n += 1
+                if not is_const(e.val, LOCKED):
+                    return False
+    return n > 0
+
+
 @rule('G1', ['C07', 'C01', 'C16'], 'who writes Signal.state: constructors (LOCKED), wait (LOCKED->LOCKED_STARVATION), wake (LOCKED->final / store final)')
 def g1(ctx):
     sites = all_atomic_sites(ctx, 'state')
@@ -108,6 +127,10 @@ def g1(ctx):
             else:
                 if a[0] != ('param', 2):
                     ctx.violate(key, None, 'wake stores something other than the requested final state', at=at, sig='wake-store')
+            continue
+        if m in ('store', 'get_mut') and os_ and os_ <= {fam.RECV_POLL} and rearm_write(ctx, key, m, op):
+            # the stream's future putting its own finished signal back to LOCKED before it registers again; F5 checks
+            # where on the poll paths this may happen
             continue
         ctx.violate(key, None, 'Signal.state is written (%s) outside wait/wake' % m, at=at, sig='state-writer:' + m)
     # direct (non-atomic) assignments / &mut borrows of a `state` field of Signal, and constructors
